@@ -249,6 +249,20 @@ def _branin_frame(t):
     t.frame_unchanged("frame:evaluation-never-modifies-the-callers-input", paths, ["x"])
 
 
+@task("C20", "BraninCurrin.evaluate[frame,single 1-D point]")
+def _branin_frame_1d(t):
+    x = t.inp("x", InArr("x", (2,)))
+    XS = t.inputs["x"].snapshot
+    t.assume(*[z3.And(V.R(v) >= 0, V.R(v) <= 1) for v in XS.flat()])
+    chol = t.inp("noise_cholesky", InArr("Lc", (2, 2)))
+    obj = SObj(cls_ref(MP, "BraninCurrin"), {"noise_var": z3.Real("nv"), "noise_cholesky": chol})
+    paths = t.run(MP, "ContinuousProblem.evaluate", [x], {"noisy": False}, self_val=obj)
+    t.no_raise(paths)
+    t.prove_paths("result_shape_1_by_2", paths, lambda p: z3.BoolVal(isinstance(p.value, L.SArr) and p.value.shape == (1, 2)))
+    # values AND shape of the caller's array object are as before the call
+    t.frame_unchanged("frame:evaluation-never-modifies-the-callers-input(values and shape)", paths, ["x"])
+
+
 class StubProblem:
     def __init__(self, t, N, m):
         self.vals = L.fresh_array("vals", (N, m))
